@@ -96,6 +96,23 @@ def run(case):
                         problems.append('%s: existing file refused with %d' % (path, code))
                 else:
                     problems.append('%s: unexpected status %d' % (path, code))
+            if case.get('revalidate') and fault is None:
+                # conditional requests: If-Modified-Since equal to the served Last-Modified is a 304 without body
+                for k, frac in enumerate((0.0, 0.25, 0.5, 0.75)):
+                    fpath = os.path.join(root, 'a.txt')
+                    os.utime(fpath, (1600000000 + k + frac, 1600000000 + k + frac))
+                    r1 = cl.get('/static/a.txt')
+                    lm = r1.headers.get('Last-Modified')
+                    r1.close()
+                    if r1.status_code != 200 or not lm:
+                        problems.append('revalidation: first GET %s, Last-Modified %r' % (r1.status_code, lm))
+                        continue
+                    r2 = cl.get('/static/a.txt', headers={'If-Modified-Since': lm})
+                    b2 = r2.get_data()
+                    r2.close()
+                    if r2.status_code != 304 or b2:
+                        problems.append('revalidation with the served Last-Modified (mtime fraction %.2f) answered %d with %d body bytes'
+                                        % (frac, r2.status_code, len(b2)))
             left = [f for f in opened if not f.closed]
             if left:
                 problems.append('%d file(s) left open' % len(left))
